@@ -162,12 +162,25 @@ func trailer(e *env, fn, ctor *core.Fn) ast.Expr {
 			}
 			return nil
 		}
-		return func(call *ast.CallExpr) *wr {
+		return func(call *ast.CallExpr) (res *wr) {
 			f := core.CalleeFunc(info, call)
 			if f == nil {
 				return nil
 			}
 			if core.IsFunc(f, "encoding/binary", "", "Write") && len(call.Args) == 3 && ref(call.Args[0]) == wsink {
+				// the value may be named first, also as an interface (`var v interface{} = uint16(V)`,
+				// what a variadic forwarding helper leaves): its definition tells the width
+				if o := objOf(info, call.Args[2]); o != nil {
+					if rhs, other := defsOf(info, wf.Decl.Body, o); len(rhs) == 1 && other == 0 && rhs[0] != nil && width(info, call.Args[2]) == 0 {
+						orig := call
+						call = &ast.CallExpr{Fun: call.Fun, Lparen: call.Lparen, Args: []ast.Expr{call.Args[0], call.Args[1], rhs[0]}, Rparen: call.Rparen}
+						defer func() {
+							if res != nil {
+								res.call = orig // the node of the control-flow graph
+							}
+						}()
+					}
+				}
 				w := &wr{call: call, kind: "data", val: call.Args[2]}
 				if o := core.ObjOf(info, call.Args[1]); o != nil {
 					w.order = o.Name()
